@@ -69,6 +69,18 @@ fn check_one<CS: BbsCiphersuite>(rep: &Report, ck: &str, c: &Case) -> CheckResul
         );
     }
     rep.eval(ck, 1);
+    // the same verification on a freshly started thread (nothing may depend on per-thread state)
+    if c.key.ikm.seed % 4 == 0 {
+        let sb0 = sig.to_bytes();
+        let ok = std::thread::scope(|s| {
+            s.spawn(|| Signature::<BBSplus<CS>>::from_bytes(&sb0).map(|x| x.verify(pk, m_arg, header.as_deref()).is_ok()).unwrap_or(false)).join().unwrap_or(false)
+        });
+        rep.eval(ck, 1);
+        if !ok {
+            return rep.fail(ck, "verify-failed-on-fresh-thread", "a signature that verifies on the signing thread does not verify on a freshly started thread".into(), cj());
+        }
+        rep.class("verified-on-fresh-thread");
+    }
     // octet round trip
     let bytes = sig.to_bytes();
     if bytes.len() != 80 {
@@ -231,7 +243,30 @@ fn boundary_cases(tier: Tier) -> Vec<Case> {
     out
 }
 
+/// first thing in the run (cold process): 16 threads sign and verify vectors of different sizes at once
+fn cold_start(ctx: &Ctx, rep: &Report) {
+    let ck = "cold-start-contention";
+    let sizes = [40usize, 70, 3, 100, 33, 65, 17, 130, 1, 96, 32, 64, 48, 20, 80, 128];
+    let r = contend(ck, ctx.workers.max(4), ctx.tier.pick(3, 12), |t, round| {
+        let l = sizes[(t + round * 5) % sizes.len()];
+        let c = Case {
+            suite: if (t + round) % 2 == 0 { SuiteId::Sha256 } else { SuiteId::Shake256 },
+            key: KeySpec { fixture: false, ikm: BSpec { len: 32, class: 0, seed: (t * 131 + round) as u32 }, key_info: OptBytes::None, key_dst: OptBytes::None },
+            header: OptBytes::None,
+            msgs: MsgVec { items: (0..l).map(|j| BSpec { len: 5, class: 0, seed: (t * 1000 + j) as u32 }).collect() },
+            msgs_none: false,
+        };
+        with_suite!(c.suite, CS => check_one::<CS>(rep, ck, &c)).map(|_| {
+            rep.nontrivial(ck, &c);
+        })
+    });
+    if let Err(f) = r {
+        rep.add_violation(f);
+    }
+}
+
 pub fn run(ctx: &Ctx, rep: &Report) -> Meta {
+    cold_start(ctx, rep);
     let cases = ctx.tier.pick(400, 4000);
     let tier = ctx.tier;
     run_cases(ctx, rep, "sign-verify", cases, 400, || strat(tier), |c| check(rep, "sign-verify", c));
